@@ -57,6 +57,15 @@ def runPlain (op : String) (args : List Sexp) : Option (Outcome Sexp × Acct) :=
   | "tinydiff", [b] => do let b ← toBytes? b; pure (u (Text.tinyDiffOp b).run unitS)
   | "enigma", [b] => do let b ← toBytes? b; pure (u (Text.enigmaOp b).run unitS)
   | "nests", [b] => do let b ← toBytes? b; pure (u (Text.nestsOp b).run unitS)
+  | "desc-deep", [.atom kind, n] => do
+    let n ← toNat? n
+    if n > 4000000 then none else
+    let dims := List.replicate n 91
+    match kind with
+    | "desc-field" => pure (u (Text.descFieldOp (dims ++ [73])).run unitS)
+    | "desc-method" => pure (u (Text.descMethodOp (40 :: dims ++ [73, 41, 86])).run unitS)
+    | "desc-return" => pure (u (Text.descReturnOp (dims ++ [73])).run unitS)
+    | _ => none
   | "desc-field", [s] => do let s ← toJStr? s; pure (u (Text.descFieldOp s).run unitS)
   | "desc-method", [s] => do let s ← toJStr? s; pure (u (Text.descMethodOp s).run unitS)
   | "desc-return", [s] => do let s ← toJStr? s; pure (u (Text.descReturnOp s).run unitS)
